@@ -202,7 +202,10 @@ def check_case(case):
         if pr:
             return (f"{pname}.invalid-compiled-design", f"{case!r}: {pr[0][:200]}", w)
         # compiling twice equals compiling once
-        P["compile"](top)
+        try:
+            P["compile"](top)
+        except Exception as e:
+            return (f"{pname}.compile-twice", f"{case!r}: compiling the compiled design again raises {type(e).__name__}: {str(e)[:100]}", w)
         if any(a is not b for a, b in zip(leaf_targets(top).values(), targets.values())):
             return (f"{pname}.compile-twice", f"{case!r}: second compile changed device targets", w)
         return None
@@ -372,6 +375,7 @@ def check_case(case):
             if how == "user-walker-first":
                 class Counter(h.HierarchyWalker):
                     def __init__(self):
+                        super().__init__()
                         self.n = 0
 
                     def visit_primitive_call(self, c):
